@@ -339,7 +339,7 @@ func (r *RNG) Program(o ProgOpts) []Call {
 // IsDest reports whether c is a Destination call (not a history-only op).
 func (c Call) IsDest() bool {
 	switch c.Name {
-	case "rc", "rn", "rlod", "bytes", "hires":
+	case "rc", "rn", "rlod", "bytes", "hires", "rast":
 		return false
 	}
 	return true
